@@ -8,7 +8,7 @@ package server
 // only when every handler goroutine is parked (in Read on an empty input queue, in the text protocol's
 // wait for a queued lock, or finished), so a run is reproducible although real goroutines are involved.
 //
-// This file is the rapid-free executor; generator and tests live in c18_gen_test.go / c18_test.go.
+// This file is the rapid-free executor; generator, property, replay and child entry live in c18_test.go.
 // All identifiers are prefixed d18.
 
 import (
@@ -301,30 +301,30 @@ type d18Frame struct {
 }
 
 type d18Peer struct {
-	idx      int
-	text     bool
-	conn     *d18Conn
-	stream   *Stream
-	done     chan struct{}
-	pan      interface{}
-	stack    string
-	proto    ServerProtocol
-	opened   bool
-	sentAny  bool
-	cid      int // client id index announced with INIT, -1 none
-	wills    []d18Cmd
-	pending  *d18Cmd // text: command whose reply has not arrived yet
-	pendKind string
-	closeReq *d18Step // close requested but deferred (text connection in a lock wait)
-	closing  bool     // close initiated by the harness, handler not finished yet
-	dead     bool     // handler finished
-	inbuf    []byte   // output not yet parsed
-	frames   []d18Frame
-	textRep  int // complete text replies received
+	idx           int
+	text          bool
+	conn          *d18Conn
+	stream        *Stream
+	done          chan struct{}
+	pan           interface{}
+	stack         string
+	proto         ServerProtocol
+	opened        bool
+	sentAny       bool
+	cid           int // client id index announced with INIT, -1 none
+	wills         []d18Cmd
+	pending       *d18Cmd // text: command whose reply has not arrived yet
+	pendKind      string
+	closeReq      *d18Step // close requested but deferred (text connection in a lock wait)
+	closing       bool     // close initiated by the harness, handler not finished yet
+	dead          bool     // handler finished
+	inbuf         []byte   // output not yet parsed
+	frames        []d18Frame
+	textRep       int // complete text replies received
 	queuedAtClose int
 	heldAtClose   int
 	willsAtClose  int
-	how      string
+	how           string
 }
 
 // ---------------------------------------------------------------------------------------------
@@ -342,47 +342,47 @@ type d18Inconclusive struct{ Msg string }
 func (v *d18Inconclusive) Error() string { return v.Msg }
 
 type d18Info struct {
-	Steps          int
-	Closes         int
-	ClosesWithWill int
-	NontrivCloses  int // close with >= 1 will and >= 1 queued request of that connection
-	WillsRun       int
-	LateToSucc     int // replies for a dead connection's request that arrived on its successor
-	LateDropped    int // queued requests of dead connections that ended without any frame
-	Expired        int
-	TimedOut       int
-	Reconnects     int
+	Steps            int
+	Closes           int
+	ClosesWithWill   int
+	NontrivCloses    int // close with >= 1 will and >= 1 queued request of that connection
+	WillsRun         int
+	LateToSucc       int // replies for a dead connection's request that arrived on its successor
+	LateDropped      int // queued requests of dead connections that ended without any frame
+	Expired          int
+	TimedOut         int
+	Reconnects       int
 	TextBlockedClose int
-	Deferred       int
-	Skipped        int
-	Classes        map[string]bool
-	NeedChild      bool // the run stopped in front of a close that is predicted to kill the process
+	Deferred         int
+	Skipped          int
+	Classes          map[string]bool
+	NeedChild        bool // the run stopped in front of a close that is predicted to kill the process
 }
 
 type d18Opts struct {
-	Ref       bool // reference run: wills are not registered; the watcher executes them after the close
-	NoGuard   bool // execute closes that are predicted to overflow the stack (child process only)
-	Trace     bool
+	Ref     bool // reference run: wills are not registered; the watcher executes them after the close
+	NoGuard bool // execute closes that are predicted to overflow the stack (child process only)
+	Trace   bool
 }
 
 type d18Env struct {
-	c     *d18Case
-	opts  d18Opts
-	inst  *vInst
-	db    *LockDB
-	now   int64
-	toQ   [][]*LockQueue
-	exQ   [][]*LockQueue
-	peers map[int]*d18Peer
-	order []int
-	w     *d18Peer
-	sent  []d18Sent
-	snaps []string // canonical lock table after every step
-	log   []string
-	info  d18Info
+	c        *d18Case
+	opts     d18Opts
+	inst     *vInst
+	db       *LockDB
+	now      int64
+	toQ      [][]*LockQueue
+	exQ      [][]*LockQueue
+	peers    map[int]*d18Peer
+	order    []int
+	w        *d18Peer
+	sent     []d18Sent
+	snaps    []string // canonical lock table after every step
+	log      []string
+	info     d18Info
 	nextPort int
-	viol  *d18Violation
-	inClose bool
+	viol     *d18Violation
+	inClose  bool
 }
 
 const d18WatcherIdx = 99
@@ -848,7 +848,7 @@ func (e *d18Env) intake(p *d18Peer) {
 		}
 		if s.Conn != p.idx {
 			e.info.LateToSucc++
-			e.info.Classes["late-reply-to-successor"] = true
+			e.info.Classes["late-reply-delivered-to-successor"] = true
 		}
 		switch fr.Result {
 		case protocol.RESULT_EXPRIED:
@@ -1487,9 +1487,6 @@ func (e *d18Env) afterClose(p *d18Peer, st d18Step, pre *d18Snap) {
 			e.fail("C18:close:second-close-has-effects", "a second Close() on the protocol object of connection c%d changed the lock table (wills executed again?)\nafter the first close:\n%s\nafter the second:\n%s",
 				p.idx, d18Indent(post.str), d18Indent(again.str))
 		}
-	}
-	if n := p.conn.lateW; n > 0 && false {
-		_ = n
 	}
 }
 
